@@ -76,6 +76,7 @@ fn main() {
     "C32" => props::c32::run(&ctx, &mut rep),
     "C33" => props::c33::run(&ctx, &mut rep),
     "C18" => props::c18::run(&ctx, &mut rep),
+    "C19" => props::c19::run(&ctx, &mut rep),
     "C20" => props::c20::run(&ctx, &mut rep),
     "C27" => props::c27::run(&ctx, &mut rep),
     "C28" => props::c28::run(&ctx, &mut rep),
